@@ -426,13 +426,16 @@ func pow(b, e int) int64 {
 func runL1(c *driver.Ctx, base *int64) {
 	st := &l1state{}
 	install(st)
-	maxLen := c.N(4, 7)
+	maxLen := c.N(5, 7)
 	// exhaustive part: global index g enumerates (length, class sequence, effect, regime)
 	g := *base
 	for ln := 1; ln <= maxLen; ln++ {
 		nseq := pow(nClasses, ln)
 		for s := int64(0); s < nseq; s++ {
 			for eff := 0; eff < nEffects; eff++ {
+				if ln >= 7 && eff/2 != int(s%2) {
+					continue // the longest sequences run under two of the four GC effects, alternating by sequence
+				}
 				for r := range regimes {
 					idx := g
 					g++
@@ -453,7 +456,7 @@ func runL1(c *driver.Ctx, base *int64) {
 		}
 	}
 	// random longer sequences with a different GC effect at every step
-	nrand := int64(c.N(5000, 60000))
+	nrand := int64(c.N(5000, 40000))
 	for k := int64(0); k < nrand; k++ {
 		idx := g
 		g++
@@ -983,7 +986,7 @@ func (e *l2env) l2Sequential(idx int64, rng *rand.Rand, allowGap bool) {
 		m.set(0, 0)
 		for i, p := range procs {
 			if state[i] == 1 {
-				_ = p.comp.Shutdown(context.Background())
+				_ = safeStop(e.c, p.comp)
 			}
 		}
 	}
@@ -1021,7 +1024,7 @@ func (e *l2env) l2Sequential(idx int64, rng *rand.Rand, allowGap bool) {
 		case "start":
 			i := pick(0)
 			ops = append(ops, l2op{Kind: "start", P: i})
-			if err := procs[i].comp.Start(context.Background(), componenttest.NewNopHost()); err != nil {
+			if err := safeStart(e.c, procs[i].comp); err != nil {
 				c.Violation("L2-lifecycle", "Start returned an error: "+err.Error(), wit(), "op", "start")
 			}
 			state[i] = 1
@@ -1039,7 +1042,7 @@ func (e *l2env) l2Sequential(idx int64, rng *rand.Rand, allowGap bool) {
 		case "stop":
 			i := pick(1)
 			ops = append(ops, l2op{Kind: "stop", P: i})
-			err := procs[i].comp.Shutdown(context.Background())
+			err := safeStop(e.c, procs[i].comp)
 			ret := evSeq.Add(1)
 			if err != nil {
 				c.Violation("L2-lifecycle", "Shutdown of a started processor returned an error: "+err.Error(), wit(), "op", "shutdown")
@@ -1138,18 +1141,18 @@ func (e *l2env) l2Restart(idx int64) {
 	}
 	c.Eval()
 	ops = append(ops, l2op{Kind: "start", P: 0})
-	_ = p0.comp.Start(context.Background(), componenttest.NewNopHost())
+	_ = safeStart(e.c, p0.comp)
 	if waitReads(m, e.w, 3) != alive {
 		c.Violation("L2-liveness", "the checker never measured after the first Start", livenessWit(wit()), "pattern", "users-remain")
-		_ = p0.comp.Shutdown(context.Background())
+		_ = safeStop(e.c, p0.comp)
 		return
 	}
 	ops = append(ops, l2op{Kind: "stop", P: 0})
-	_ = p0.comp.Shutdown(context.Background())
+	_ = safeStop(e.c, p0.comp)
 	lv := hard + 1
 	m.set(lv, lv)
 	ops = append(ops, l2op{Kind: "level", Class: clNames[clAbove], Effect: effNames[effNone], Expect: "refusing=true"}, l2op{Kind: "start", P: 1})
-	_ = p1.comp.Start(context.Background(), componenttest.NewNopHost())
+	_ = safeStart(e.c, p1.comp)
 	if r := waitReads(m, e.w, 3); r == alive {
 		c.Observe("l2_liveness_checks", 1)
 		ops = append(ops, l2op{Kind: "consume", P: 1, Sink: "nil", Expect: "refusing=true"})
@@ -1165,13 +1168,32 @@ func (e *l2env) l2Restart(idx int64) {
 		ops = append(ops, l2op{Kind: "consume", P: 1, Sink: "nil", Expect: fmt.Sprintf("refusing=true; observed: returned %v, forwarded %d", cerr, p1.sk.calls)})
 		c.Violation("L2-liveness", "the shared checker stopped measuring although a started processor is still using the limiter (witness ticker of the same period fired 3 x 400 times meanwhile)", livenessWit(wit()), "pattern", "restart-after-zero-users")
 	}
-	err := p1.comp.Shutdown(context.Background())
+	err := safeStop(e.c, p1.comp)
 	ret := evSeq.Add(1)
 	if err != nil {
 		c.Violation("L2-lifecycle", "Shutdown of a started processor returned an error: "+err.Error(), wit(), "op", "shutdown")
 	}
 	e.done = append(e.done, stopped{m, ret, wit()})
 	c.Nontrivial("L2-directed-restart")
+}
+
+// safeStart / safeStop turn a panic inside a lifecycle call into a violation instead of a dead child.
+func safeStart(c *driver.Ctx, comp component.Component) error {
+	var err error
+	if pv, stack := driver.Catch(func() { err = comp.Start(context.Background(), componenttest.NewNopHost()) }); pv != nil {
+		c.Violation("panic", fmt.Sprintf("Start panicked: %v", pv), map[string]any{"stack": stack}, "site", driver.PanicSite(stack))
+		return nil
+	}
+	return err
+}
+
+func safeStop(c *driver.Ctx, comp component.Component) error {
+	var err error
+	if pv, stack := driver.Catch(func() { err = comp.Shutdown(context.Background()) }); pv != nil {
+		c.Violation("panic", fmt.Sprintf("Shutdown panicked: %v", pv), map[string]any{"stack": stack}, "site", driver.PanicSite(stack))
+		return nil
+	}
+	return err
 }
 
 type mustRefuser interface{ MustRefuse() bool }
@@ -1202,7 +1224,7 @@ func (e *l2env) l2Extension(idx int64, rng *rand.Rand) {
 		return
 	}
 	c.Eval()
-	if err := ext.Start(context.Background(), componenttest.NewNopHost()); err != nil {
+	if err := safeStart(e.c, ext); err != nil {
 		c.Violation("L2-lifecycle", "Start returned an error: "+err.Error(), wit(), "op", "start")
 		return
 	}
@@ -1223,7 +1245,7 @@ func (e *l2env) l2Extension(idx int64, rng *rand.Rand) {
 				c.Inconclusive("checker-busy-for-4000-witness-ticks")
 			}
 			m.set(0, 0)
-			_ = ext.Shutdown(context.Background())
+			_ = safeStop(e.c, ext)
 			return
 		}
 		c.Observe("l2_extension_checks", 1)
@@ -1235,7 +1257,7 @@ func (e *l2env) l2Extension(idx int64, rng *rand.Rand) {
 		}
 		prev = want
 	}
-	err = ext.Shutdown(context.Background())
+	err = safeStop(e.c, ext)
 	ret := evSeq.Add(1)
 	if err != nil {
 		c.Violation("L2-lifecycle", "Shutdown of a started extension returned an error: "+err.Error(), wit(), "op", "shutdown")
@@ -1279,7 +1301,7 @@ func (e *l2env) l2Concurrent(idx int64, rng *rand.Rand) {
 	wit := func() any {
 		return map[string]any{"layer": "L2-concurrent", "processors": sigs, "regime": rg.Name, "case": idx}
 	}
-	if err := procs[0].comp.Start(context.Background(), componenttest.NewNopHost()); err != nil {
+	if err := safeStart(e.c, procs[0].comp); err != nil {
 		c.Violation("L2-lifecycle", "Start returned an error: "+err.Error(), wit(), "op", "start")
 		return
 	}
@@ -1314,7 +1336,7 @@ func (e *l2env) l2Concurrent(idx int64, rng *rand.Rand) {
 			if r.Intn(2) == 0 {
 				runtime.Gosched()
 			}
-			if err := p.comp.Start(context.Background(), componenttest.NewNopHost()); err != nil {
+			if err := safeStart(e.c, p.comp); err != nil {
 				c.Violation("L2-lifecycle", "Start returned an error: "+err.Error(), wit(), "op", "start")
 			}
 			mark(fmt.Sprintf("S%d", i))
@@ -1324,7 +1346,7 @@ func (e *l2env) l2Concurrent(idx int64, rng *rand.Rand) {
 					time.Sleep(time.Duration(r.Intn(400)) * time.Microsecond)
 				}
 			}
-			if err := p.comp.Shutdown(context.Background()); err != nil {
+			if err := safeStop(e.c, p.comp); err != nil {
 				c.Violation("L2-lifecycle", "Shutdown of a started processor returned an error: "+err.Error(), wit(), "op", "shutdown")
 			}
 			mark(fmt.Sprintf("X%d", i))
@@ -1347,7 +1369,7 @@ func (e *l2env) l2Concurrent(idx int64, rng *rand.Rand) {
 			c.Inconclusive("checker-busy-for-4000-witness-ticks")
 		}
 		m.set(0, 0)
-		_ = procs[0].comp.Shutdown(context.Background())
+		_ = safeStop(e.c, procs[0].comp)
 		return
 	}
 	c.Observe("l2_liveness_checks", 1)
@@ -1358,7 +1380,7 @@ func (e *l2env) l2Concurrent(idx int64, rng *rand.Rand) {
 	if waitReads(m, e.w, 3) == alive {
 		checkConsume(c, procs[0], fmt.Sprintf("cy%d", idx), 0, rng.Intn(3), wit)
 	}
-	err := procs[0].comp.Shutdown(context.Background())
+	err := safeStop(e.c, procs[0].comp)
 	ret := evSeq.Add(1)
 	if err != nil {
 		c.Violation("L2-lifecycle", "Shutdown of a started processor returned an error: "+err.Error(), wit(), "op", "shutdown")
@@ -1414,7 +1436,23 @@ func runL2(c *driver.Ctx, base *int64) {
 	*base = idx
 }
 
+// endAwayFromFlushTick works around a race in lib/driver.runChild (reported, not ours to edit): the child's
+// periodic result flush (every 2 s, started right before Run) is not joined before the final flush, so a tick
+// that is pending when Run returns can rewrite the result with done=false after the final flush and the parent
+// then reports the shard as died. Returning in the middle of a period makes that practically impossible.
+func endAwayFromFlushTick(t0 time.Time) {
+	const period = 2 * time.Second
+	for {
+		ph := time.Since(t0) % period
+		if ph > 300*time.Millisecond && ph < 1500*time.Millisecond {
+			return
+		}
+		time.Sleep(25 * time.Millisecond)
+	}
+}
+
 func run(c *driver.Ctx) {
+	defer endAwayFromFlushTick(time.Now())
 	for _, lc := range cfgs {
 		if _, _, ok := lc.limits(); !ok {
 			panic("harness: configuration without exact reference: " + lc.Name)
@@ -1437,7 +1475,7 @@ func main() {
 	driver.Main(driver.Spec{
 		ID:    "C18",
 		Level: "exploration",
-		Rule: "L1: a case is one (sequence of reading classes {below soft, = soft, between, = hard, above hard}, effect of a forced GC on the re-measurement {none, to below soft, to exactly soft, to below hard only}, minimum-GC-interval regime {0/0, 1h/1h, 1h/0}, limit configuration in MiB or percent); all class sequences up to length 4 (quick) / 7 (thorough) are enumerated, plus random sequences of up to 12 further readings with a different GC effect per step; " +
+		Rule: "L1: a case is one (sequence of reading classes {below soft, = soft, between, = hard, above hard}, effect of a forced GC on the re-measurement {none, to below soft, to exactly soft, to below hard only}, minimum-GC-interval regime {0/0, 1h/1h, 1h/0}, limit configuration in MiB or percent); all class sequences up to length 5 (quick) / 7 (thorough; length 7 under two of the four GC effects, alternating) are enumerated, plus random sequences of up to 12 further readings with a different GC effect per step; " +
 			"non-trivial = the reference refuse state changes at least once (the sequence crosses the soft limit); distinct = distinct (class sequence, regime, effect). " +
 			"L2: a case is one interleaving of start / shutdown / level change / consume over 2-4 processors (logs, traces, metrics, profiles) created from one configuration, the extension, or a concurrent start/consume/shutdown run; non-trivial = the limiter went into refusing mode at least once",
 		Assumptions: []string{
@@ -1453,7 +1491,7 @@ func main() {
 			if tier == "thorough" {
 				return 300000
 			}
-			return 5000
+			return 20000
 		},
 		ShardTimeout: func(tier string) time.Duration {
 			if tier == "thorough" {
